@@ -353,9 +353,67 @@ func (c *Ctx) Ite(cond, a, b *Term) *Term {
 	return c.mk(OpIte, a.Width, []*Term{cond, a, b}, 0, "")
 }
 
+// ubound returns a cheap upper bound of the unsigned value of t.
+func ubound(t *Term, depth int) uint64 {
+	if t.Op == OpConst {
+		return t.Val
+	}
+	m := mask(t.Width)
+	if depth > 6 {
+		return m
+	}
+	switch t.Op {
+	case OpBvAnd:
+		a, b := ubound(t.Args[0], depth+1), ubound(t.Args[1], depth+1)
+		if a < b {
+			return a
+		}
+		return b
+	case OpLshr:
+		if t.Args[1].IsConst() {
+			if t.Args[1].Val >= uint64(t.Width) {
+				return 0
+			}
+			return ubound(t.Args[0], depth+1) >> t.Args[1].Val
+		}
+		return ubound(t.Args[0], depth+1)
+	case OpZext:
+		return ubound(t.Args[0], depth+1)
+	case OpExtract:
+		lo := t.Val & 0xff
+		if lo == 0 {
+			u := ubound(t.Args[0], depth+1)
+			if u < m {
+				return u
+			}
+		}
+		return m
+	case OpURem:
+		if t.Args[1].IsConst() && t.Args[1].Val > 0 {
+			return t.Args[1].Val - 1
+		}
+	case OpIte:
+		a, b := ubound(t.Args[1], depth+1), ubound(t.Args[2], depth+1)
+		if a > b {
+			return a
+		}
+		return b
+	}
+	return m
+}
+
 func (c *Ctx) cmp(op Op, a, b *Term) *Term {
 	if a.Width != b.Width {
 		panic(fmt.Sprintf("cmp width mismatch %d %d", a.Width, b.Width))
+	}
+	if b.IsConst() && !a.IsConst() {
+		u := ubound(a, 0)
+		if op == OpUlt && u < b.Val {
+			return c.True
+		}
+		if op == OpUle && u <= b.Val {
+			return c.True
+		}
 	}
 	if a.IsConst() && b.IsConst() {
 		switch op {
